@@ -995,7 +995,10 @@ func (r *runner) serverCases(ls *lib.Livesim, assets []*lib.TLAsset, generated b
 		trexOf[key] = f.Init.Moov.Mvex.Trex
 		return trexOf[key], nil
 	}
-	langSets := [][]string{{"en"}, {"en", "sv"}, {"de"}, {"sv", "en", "fi"}}
+	// languages: two-letter codes, tags with region / script subtags (a dash inside the tag), three-letter
+	// codes, upper case, many at once, a duplicate
+	langSets := [][]string{{"en"}, {"en", "sv"}, {"de"}, {"sv", "en", "fi"}, {"en", "pt-BR"}, {"zh-Hant", "sv"}, {"sr-Latn-RS"},
+		{"eng", "swe"}, {"EN"}, {"en", "sv", "fi", "de", "no", "da", "fr", "es-419"}, {"en", "en"}}
 	inDomain := []int64{0, 1, 500, 900, 999, 1000}
 	outDomain := []int64{1001, 1500, 2500}
 	modes := []string{"number", "tlnr", "tlt"}
@@ -1088,7 +1091,13 @@ func (r *runner) serverCases(ls *lib.Livesim, assets []*lib.TLAsset, generated b
 			url := fmt.Sprintf("/livesim2/%s%s/%s/%d.m4s?nowMS=%d", cfg.URLPrefix(), a.Path, rep, sid, now)
 			trex, err := getTrex(a, cfg, rep, now)
 			if err != nil {
-				return err
+				// the initialization segment of a configured subtitle representation is not served
+				_, id := r.id()
+				iin := map[string]any{"kind": "init", "url": fmt.Sprintf("/livesim2/%s%s/%s/init.mp4?nowMS=%d", cfg.URLPrefix(), a.Path, rep, now), "lang": lang}
+				c.Res.Inputs[id] = iin
+				r.evals++
+				c.Fail(id, "init-not-served", fmt.Sprintf("%v (language %q of %q is configured)", err, lang, strings.Join(langs, ",")), iin)
+				continue
 			}
 			o := parseSubSegment(ls.GetRaw(url), wvtt, trex)
 			if o.Status == -1 {
@@ -1132,7 +1141,7 @@ func (r *runner) serverCases(ls *lib.Livesim, assets []*lib.TLAsset, generated b
 
 			// MPD of the same configuration, once in a while
 			if k%5 == 0 {
-				if err := r.mpdCase(ls, a, sc, cfg, now, ts, generated); err != nil {
+				if err := r.mpdCase(ls, a, sc, cfg, now, ts, generated, sid, ro, refURL); err != nil {
 					return err
 				}
 			}
@@ -1311,7 +1320,7 @@ func nil2rep(assets []*lib.TLAsset, path string) *lib.TLRep {
 }
 
 // mpdCase: the subtitle AdaptationSets mirror the video AdaptationSet in milliseconds.
-func (r *runner) mpdCase(ls *lib.Livesim, a *lib.TLAsset, sc subsCfg, cfg lib.TLCfg, now int64, ts int64, generated bool) error {
+func (r *runner) mpdCase(ls *lib.Livesim, a *lib.TLAsset, sc subsCfg, cfg lib.TLCfg, now int64, ts int64, generated bool, caseSid int64, caseRef lib.SegObs, caseRefURL string) error {
 	c := r.c
 	url := lib.MPDURL(a, cfg, now)
 	resp := ls.GetRaw(url)
@@ -1352,6 +1361,61 @@ func (r *runner) mpdCase(ls *lib.Livesim, a *lib.TLAsset, sc subsCfg, cfg lib.TL
 		c.Res.Inputs[id] = in
 		c.Fail(id, "mpd-mirror", fmt.Sprintf("%s: %d generated subtitle adaptation sets, %d languages configured", url, len(subs), want), in)
 	}
+	// every advertised generated subtitle representation can be fetched: its initialization segment,
+	// and (for MPDs without SegmentTimeline) the segment with the number of the video segment of this
+	// case; for SegmentTimeline MPDs the listed segments are requested below
+	for _, s := range subs {
+		rep := s.RepIDs[0]
+		wvtt := strings.HasPrefix(rep, "timewvtt-")
+		lang := rep[strings.Index(rep, "-")+1:]
+		initURL := fmt.Sprintf("/livesim2/%s%s/%s/init.mp4?nowMS=%d", cfg.URLPrefix(), a.Path, rep, now)
+		ri := ls.GetRaw(initURL)
+		_, iid := r.id()
+		iin := map[string]any{"kind": "init", "url": initURL, "mpd_url": url, "lang": lang}
+		c.Res.Inputs[iid] = iin
+		c.Count("advertised-representation:init")
+		r.evals++
+		var trex *mp4.TrexBox
+		if ri.Panic != "" {
+			c.Fail(iid, "panic:"+ri.Panic, initURL, iin)
+		} else if ri.Status != 200 {
+			c.Fail(iid, fmt.Sprintf("advertised:init-status-%d", ri.Status), fmt.Sprintf("%s -> %d although %s advertises Representation %q (lang %q)", initURL, ri.Status, url, rep, lang), iin)
+		} else if f, err := mp4.DecodeFile(bytes.NewReader(ri.Body)); err != nil || f.Init == nil || f.Init.Moov.Mvex == nil {
+			c.Fail(iid, "advertised:init-unparsable", initURL, iin)
+		} else {
+			trex = f.Init.Moov.Mvex.Trex
+			if tsc := f.Init.Moov.Trak.Mdia.Mdhd.Timescale; tsc != 1000 {
+				c.Fail(iid, "subtitle-timescale", fmt.Sprintf("%s: timescale %d, expected 1000", initURL, tsc), iin)
+			}
+		}
+		if vAS.HasTimeline || trex == nil && ri.Status == 200 {
+			continue
+		}
+		surl := fmt.Sprintf("/livesim2/%s%s/%s/%d.m4s?nowMS=%d", cfg.URLPrefix(), a.Path, rep, caseSid, now)
+		sin := segIn{Kind: "segment", Asset: a.Path, Gen: generated, Wvtt: wvtt, Lang: lang, Langs: strings.Join(append(append([]string{}, sc.Stpp...), sc.Wvtt...), ","), Mode: sc.Mode,
+			StartS: sc.StartS, CueDur: sc.CueDur, Region: sc.Region, N: caseSid, NowMS: now, URL: surl, RefURL: caseRefURL, Snr: sc.Snr, Tsbd: sc.Tsbd, Listed: true, MPDURL: url}
+		sin.EffCue = sin.cue()
+		sin.OffGrid = (caseRef.Tfdt*1000)%ts != 0
+		_, sidd := r.id()
+		c.Res.Inputs[sidd] = sin
+		c.Count("advertised-representation:segment")
+		r.evals++
+		sresp := ls.GetRaw(surl)
+		if sresp.Status != 200 || trex == nil {
+			st := sresp.Status
+			if sresp.Panic != "" {
+				st = 0
+			}
+			c.Fail(sidd, fmt.Sprintf("advertised:status-%d", st), fmt.Sprintf("%s -> %d %s although %s advertises Representation %q and the video segment %s is served", surl, st, sresp.Panic, url, rep, caseRefURL), sin)
+			continue
+		}
+		o := parseSubSegment(sresp, wvtt, trex)
+		if o.Status == -1 {
+			c.Fail(sidd, "malformed-segment", surl+": "+o.Err, sin)
+			continue
+		}
+		checkSegment(c, sidd, sin, caseRef, ts, o)
+	}
 	listedDone := false
 	for _, s := range subs {
 		idn, id := r.id()
@@ -1389,11 +1453,11 @@ func (r *runner) mpdCase(ls *lib.Livesim, a *lib.TLAsset, sc subsCfg, cfg lib.TL
 				c.Fail(id, key, fmt.Sprintf("%s: %s: %s (SegmentTimeline %v, video %v at timescale %d)", url, s.RepIDs[0], what, se, ve, vAS.Timescale), in)
 			}
 			r.terms = append(r.terms, fmt.Sprintf("CMpdTl %d %s %d %s %s %s", idn, lib.Cbool(r.bnd), vAS.Timescale, lib.Cbool(exact), entriesTerm(ve), entriesTerm(se)))
-			if !listedDone && len(s.Timeline) == len(vAS.Timeline) {
-				listedDone = true
-				if err := r.listedSegments(ls, a, sc, cfg, now, ts, generated, url, vAS, s); err != nil {
+			if len(s.Timeline) == len(vAS.Timeline) {
+				if err := r.listedSegments(ls, a, sc, cfg, now, ts, generated, url, vAS, s, !listedDone); err != nil {
 					return err
 				}
+				listedDone = true
 			}
 		} else {
 			if s.Duration != vAS.Duration*1000/vAS.Timescale {
@@ -1409,7 +1473,7 @@ func (r *runner) mpdCase(ls *lib.Livesim, a *lib.TLAsset, sc subsCfg, cfg lib.TL
 // listedSegments: MPD-driven. Every subtitle segment the MPD lists (SegmentTimeline with $Time$ or
 // $Number$) is requested, together with the video segment listed at the same position, and checked
 // like any other segment: it must be served and be the subtitle segment of that video segment.
-func (r *runner) listedSegments(ls *lib.Livesim, a *lib.TLAsset, sc subsCfg, cfg lib.TLCfg, now int64, ts int64, generated bool, mpdURL string, vAS, s *lib.ASObs) error {
+func (r *runner) listedSegments(ls *lib.Livesim, a *lib.TLAsset, sc subsCfg, cfg lib.TLCfg, now int64, ts int64, generated bool, mpdURL string, vAS, s *lib.ASObs, full bool) error {
 	c := r.c
 	ref := a.Ref()
 	rep := s.RepIDs[0]
@@ -1422,8 +1486,7 @@ func (r *runner) listedSegments(ls *lib.Livesim, a *lib.TLAsset, sc subsCfg, cfg
 		_, id := r.id()
 		in := map[string]any{"kind": "init", "url": initURL}
 		c.Res.Inputs[id] = in
-		c.Fail(id, fmt.Sprintf("listed:init-status-%d", ri.Status), initURL+" (initialization of a listed representation)", in)
-		return nil
+		return nil // reported by the advertised-representation check of the MPD case
 	}
 	trex := f.Init.Moov.Mvex.Trex
 	n := len(s.Timeline)
@@ -1433,6 +1496,9 @@ func (r *runner) listedSegments(ls *lib.Livesim, a *lib.TLAsset, sc subsCfg, cfg
 	}
 	for k := 0; k < n; k++ {
 		if !(k < 3 || k >= n-3 || k%step == 0) {
+			continue
+		}
+		if !full && k != 0 && k != n-1 { // further representations of the same MPD: the oldest and the newest listed segment
 			continue
 		}
 		vid, sid := vAS.StartNumber+int64(k), s.StartNumber+int64(k)
